@@ -23,7 +23,7 @@ PROPS = {
         assumptions=['Go map iteration order is canonicalised by sorting result sets'],
     ),
     'C05': dict(
-        harness='treediff', args=['-prop', 'C05'], shards=dict(quick=4, thorough=16), race=True,
+        harness='treediff', args=['-prop', 'C05'], shards=dict(quick=4, thorough=16), race=True, fact_search_args=['-only', 'conc', '-rounds', '40000'],
         spec_ops=['tree spec'],
         rule='exhaustive operation sequences over 6 topics x 2 values (45 ops; length 2 quick, 3 thorough) with every query after the sequence, '
              'random histories up to 120/400 ops with queries interleaved; snapshot, aliasing and history-independence monitors on the real tree; '
